@@ -1,5 +1,6 @@
 import PySMT.Proofs.WalkerMore
 import PySMT.Proofs.WalkerInstSubst
+import PySMT.Proofs.TheoryHeapWalk
 
 /-!
 # C14 — results do not depend on the environment's history
@@ -124,6 +125,45 @@ theorem substitute_walk_eq_partial {M E : Type} [MemoLike M Term Term] [LawfulMe
 
 example (σ : Subst.TMap) : FoldIdle (fun n => n.op.isQuantifier) (Subst.substG false Subst.noInterp σ)
     (WState.init : WState (AMemo Term Term) Term) := foldIdle_init _ _
+
+/-! ### `TheoryOracle`: mutable `Theory` objects behind a long-lived memo (heap model `Impl/TheoryHeap.lean`)
+
+    The memo maps nodes to *addresses*; every `walk_*` rule is written with the objects it creates (`copy`, `combine`,
+    `set_*`, `Theory()`: new objects), the attribute assignments it makes in place (`walk_function`, `walk_str_int`,
+    `walk_bv_tonatural`, `walk_array_value`, `walk_constant`) and the object it returns.  `run hist St.init` is the
+    state after an arbitrary history of `get_theory` calls on a new oracle.  The specification is c13's recursive
+    `TheoryOracle.theoryOf`. -/
+
+/-- every memoised node points to an allocated object that holds `theoryOf` of that node -/
+theorem theory_memo_ok (hist : List Term) : TheoryHeap.MemoOK (TheoryHeap.run hist TheoryHeap.St.init) :=
+  TheoryHeap.theory_memo_ok hist
+
+/-- no two memoised nodes share an object (`Shaped`: quantifiers bind a variable, no one-argument division: every
+    node the formula manager can build) -/
+theorem theory_no_alias (hist : List Term) (hsh : ∀ t ∈ hist, TheoryHeap.Shaped t) :
+    TheoryHeap.NoAlias (TheoryHeap.run hist TheoryHeap.St.init) :=
+  TheoryHeap.theory_no_alias hist hsh
+
+/-- an object stored in the memo is never written afterwards, whatever is walked later -/
+theorem theory_never_mutated (s : TheoryHeap.St) (hs : TheoryHeap.MemoOK s) (later : List Term) (t : Term) (a : Nat)
+    (hm : (t, a) ∈ s.memo) : (TheoryHeap.run later s).heap.cells a = s.heap.cells a :=
+  TheoryHeap.theory_never_mutated s hs later t a hm
+
+/-- `get_theory` / `get_logic` of a formula do not depend on the earlier oracle calls -/
+theorem get_theory_indep (hist : List Term) (t : Term) :
+    (TheoryHeap.getTheory t (TheoryHeap.run hist TheoryHeap.St.init)).1 = (TheoryHeap.getTheory t TheoryHeap.St.init).1 := by
+  rw [(TheoryHeap.get_theory_indep hist t).1, (TheoryHeap.get_theory_indep hist t).2]
+
+theorem get_logic_indep (hist : List Term) (t : Term) :
+    (TheoryHeap.getLogicH t (TheoryHeap.run hist TheoryHeap.St.init)).1
+      = (TheoryHeap.getLogicH t TheoryHeap.St.init).1 := by
+  rw [TheoryHeap.get_logic_indep hist t, ← TheoryHeap.get_logic_indep [] t]; rfl
+
+-- non-vacuity: `p(x, b)` then `x < y` -- the history of the seeded aliasing change; every constructible term is `Shaped`
+example : TheoryHeap.Shaped (Term.node .lt [Term.var "x" .int, Term.var "y" .int] .none) := by
+  intro x hx
+  simp [Term.subterms, Term.var, Term.sym] at hx
+  rcases hx with rfl | rfl | rfl <;> rfl
 
 /-! ### Non-vacuity, and the pre-repair behaviour -/
 
